@@ -23,7 +23,7 @@ from ..drivers import scanmodel as sm, backends as be, watchdog
 
 # rows of FocusTable in spec/Scanner.tla used for corpus (a): portable alphabets (no TAB, no non-printables, no surrogate escapes)
 FOCUSES = ['pstruct', 'pstruct8', 'pblock', 'pflow', 'pbreaks', 'pdocs', 'pdquote', 'psquote', 'pescape', 'pyamldir', 'ptagdoc', 'ptag', 'pliteral',
-           'pfolded', 'pseqlit', 'pmapblock', 'panchors', 'pindic', 'pcont', 'ptagdflt', 'pindentless']
+           'pfolded', 'pseqlit', 'pmapblock', 'panchors', 'pindic', 'pcont', 'ptagdflt', 'pindentless', 'pbom', 'pnested']
 LIMIT = 240.0
 
 
@@ -276,9 +276,9 @@ STRUCT_TOK = ["DS", "DE", "BSS", "BMS", "BEND", "FSS", "FMS", "FSE", "FME", "BEN
 
 
 def parser_structures(tier):
-    """document structures = event streams of all token sequences (<= 6 / 7 structural tokens) that Parser.tla accepts"""
+    """document structures = event streams of all token sequences (<= 5 / 7 structural tokens) that Parser.tla accepts"""
     r = tlc.run('Parser', cfg='MC_Parser.cfg', tag='C06_struct', dump=True, timeout=3000, coverage=False,
-                constants={'MaxTokens': 6 if tier == 'quick' else 7, 'Tok': tla_set(STRUCT_TOK), 'History': 'TRUE'})
+                constants={'MaxTokens': 5 if tier == 'quick' else 7, 'Tok': tla_set(STRUCT_TOK), 'History': 'TRUE'})
     tlc.require_ok(r, 'Parser.tla structures')
     seqs = set()
     for s in mbt.pmap(kinds_work, r.dump):
